@@ -19,7 +19,7 @@ THEOREMS = [
     'IblVerif.C17.splice_sum_one',
 ]
 RULE = ('triples (ns, nswin, overlap) with overlap < nswin: an exhaustive small box plus seeded random triples '
-        '(log-uniform sizes up to 10^7, biased to short last windows, ns <= overlap, zero overlap, 2*overlap = nswin); '
+        '(log-uniform sizes up to 10^7, biased to short last windows, ns <= overlap, zero overlap, 2*overlap = nswin; sample counts around 2^31 … 2^45 with very large windows, and the default 65536/1024 batch window over 2^31 samples); '
         'a subset also with the three arguments given in other numeric forms (numpy ints of several widths, floats); each triple is run through firstlast / nwin / tscale (a subset also twice on ONE generator object), firstlast_valid (even overlaps, odd ones must assert) '
         'and firstlast_splicing; a case is non-trivial when it yields >= 2 windows or ns < nswin; distinct by triple+op')
 ASSUMPTIONS = [
@@ -152,6 +152,15 @@ def _triples(ctx):
             if (ns - w) // stride > 400:
                 ns = w + int(rng.integers(1, 400)) * stride - int(rng.integers(0, stride))
         out.append((max(ns, 1), w, ov))
+    # sample counts beyond what 31 / 32 / 53 bits hold (a 30 kHz recording passes 2^31 samples after 19.9 h): few, very large
+    # windows, so that the lists stay short; and the library's default batch window (65536, overlap 1024) over 2^31 samples
+    for e in (31, 32, 33, 36, 40, 45):
+        for _ in range(ctx.n(6, 30)):
+            w = 2 ** (e - int(rng.integers(4, 9))) + int(rng.integers(-3, 4))
+            ov = int(rng.choice([0, w // 2, int(rng.integers(0, w)), 2 * int(rng.integers(0, w // 2))]))
+            ns = 2 ** e + int(rng.integers(-5, 2 ** (e - 3)))
+            out.append((ns, w, ov))
+    out.append((2 ** 31 + 10 * 64512 + 777, 65536, 1024))
     return out
 
 
